@@ -1,2 +1,5 @@
-import AlgoVerif.Common
-/-! # C03 — property theorems (none yet) -/
+import AlgoVerif.Model.C02Run
+/-! # C03 — property theorems (under construction) -/
+open AlgoVerif AlgoVerif.C02
+
+theorem C03_placeholder : isPrime 31 = true := by decide
